@@ -419,15 +419,15 @@ impl EWorld {
                             Err(e) => format!("errno{}", e),
                         }
                     }
-                    3 => format!("{:?}", cl.setattr(subj, node, &[("mode", 0o600)]).map(|a| self.note_attr("setattr", &a))),
+                    3 => format!("{:?}", cl.setattr(subj, node, &[("valid", 1), ("mode", 0o600)]).map(|a| self.note_attr("setattr", &a))),
                     4 => {
                         if mode == libc::S_IFDIR {
                             return None;
                         }
-                        format!("{:?}", cl.setattr(subj, node, &[("size", 0)]).map(|a| self.note_attr("setattr", &a)))
+                        format!("{:?}", cl.setattr(subj, node, &[("valid", 8), ("size", 0)]).map(|a| self.note_attr("setattr", &a)))
                     }
-                    5 => format!("{:?}", cl.setattr(subj, node, &[("mtime", 1_000_000), ("atime", 1_000_000)]).map(|a| self.note_attr("setattr", &a))),
-                    6 => format!("{:?}", cl.setattr(subj, node, &[("uid", 12), ("gid", 13)]).map(|a| self.note_attr("setattr", &a))),
+                    5 => format!("{:?}", cl.setattr(subj, node, &[("valid", 16 | 32), ("mtime", 1_000_000), ("atime", 1_000_000)]).map(|a| self.note_attr("setattr", &a))),
+                    6 => format!("{:?}", cl.setattr(subj, node, &[("valid", 2 | 4), ("uid", 12), ("gid", 13)]).map(|a| self.note_attr("setattr", &a))),
                     7 => format!("errno{}", cl.setxattr(subj, node, b"user.c06", b"v", 0)),
                     8 => {
                         if mode == libc::S_IFDIR {
